@@ -1,4 +1,139 @@
-From DV Require Import DataModel Run_C15 C15P.
-Theorem C15_placeholder : True.
-Proof. exact placeholder_c15. Qed.
-Print Assumptions C15_placeholder.
+(* C15 — Changing the data model never loses data and a refused change changes nothing.
+   Property theorems only: statement, exact, Print Assumptions.
+   Model: model/DataModel.v (parse_internal, insert, add_field/insert_field, update_system, update,
+   update_with, Entity::update; hash-map iteration orders = the oracle argument `o`, every theorem
+   quantifies over all oracles).  Proofs: proofs/DataModelP.v, proofs/C15P.v.
+   Functions of run/Run_C15.v used below are the ones the harness evaluates on every case:
+   run_steps (what run_C15 prints), stable_b / wf_b / newfields_b (clauses of spec_C15),
+   known_steps / k1_step / in_loop_err (known_C15). *)
+From DV Require Import DataModel Run_C15 DataModelP C15P.
+Local Open Scope N_scope.
+
+(* What the whole property would need and only partly is a statement about a model: rows written
+   before stay readable with the same values (needs the query evaluator and SQLite: observed on
+   real instances by the harness, proved below only for readers that address values by storage
+   identifier), identifiers depend only on the accepted versions, a refused version changes
+   nothing, the same model again changes nothing. *)
+Definition C15_full : Prop :=
+  forall steps os1 os2,
+    let h := run_steps empty_model steps os1 in
+    chain addresses_kept empty_model h /\ hist_ok empty_model h /\ refused_unchanged empty_model h
+    /\ run_steps empty_model steps os2 = h.
+
+(* (1) identifiers never change or collide: for EVERY history of update_system / update calls from
+   the empty model, every verdict (accepted, refused, refused half-way) and every iteration order:
+   each namespace, entity and field that existed keeps name, storage identifier and type
+   (stable_b), no two share an identifier (wf_b), and a field added to an existing entity is
+   nullable, has a default or is a reference (newfields_b). *)
+Theorem C15_stable_holds : forall steps os, hist_ok empty_model (run_steps empty_model steps os).
+Proof. exact ids_stable_all_histories. Qed.
+Print Assumptions C15_stable_holds.
+
+(* the same in relational form for one step (field_ext: same name, identifier, type) *)
+Theorem C15_stable_step : forall o sys M v, model_ext (m_nss M) (m_nss (fst (upd o sys M v))).
+Proof. exact upd_ext. Qed.
+Print Assumptions C15_stable_step.
+
+(* (2) existing data stays readable under the same names — for any reader that finds a value
+   through the entity's and the field's storage identifier (as the query layer does: `_entity`
+   = entity short name, `_json->>'$.<field short name>'`).  `_partial`: the real query evaluator
+   and SQLite are not modelled; the harness reads rows back on real instances. *)
+Theorem C15_readable_partial : forall steps os,
+  chain addresses_kept empty_model (run_steps empty_model steps os).
+Proof. intros. apply run_steps_addresses_kept. exact wf_model_nil. Qed.
+Print Assumptions C15_readable_partial.
+
+Theorem C15_readable_reader_partial : forall (store : Type) (read_at : eshort * N * ftype -> store -> N -> option N)
+  o sys M v ns e f db row, wf_model (m_nss M) -> address (m_nss M) ns e f <> None ->
+  read store read_at (m_nss (fst (upd o sys M v))) ns e f db row = read store read_at (m_nss M) ns e f db row.
+Proof. exact read_stable. Qed.
+Print Assumptions C15_readable_reader_partial.
+
+(* (3) identifiers depend only on the accepted versions: REFUTED (K1). Two peers accept the same
+   two versions (the second adds f2, f3 to an existing entity) and hold different identifiers;
+   the peer whose hash map did not follow the text then refuses the same text again
+   (InvalidFieldOrdering): a restart with an unchanged model fails. *)
+Theorem C15_deterministic_refuted :
+  let a := run_steps empty_model w_steps (map oracle_of [w_none; w_text_order; w_none]) in
+  let b := run_steps empty_model w_steps (map oracle_of [w_none; w_other_order; w_none]) in
+  map fst (firstn 2 a) = [None; None] /\ map fst (firstn 2 b) = [None; None]
+  /\ map snd (firstn 2 a) <> map snd (firstn 2 b)
+  /\ map fst a = [None; None; None] /\ map fst b = [None; None; Some EFieldOrdering].
+Proof. exact k1_witness. Qed.
+Print Assumptions C15_deterministic_refuted.
+
+(* ... and holds outside the known classes: a history in which no version gives an existing entity
+   two or more new fields at once (K1) and none is refused from inside the in-place loops (K2)
+   yields the same verdicts and the same models under all iteration orders. *)
+Theorem C15_deterministic_outside_known : forall steps os1 os2 M,
+  known_steps M steps os1 = (false, false) -> run_steps M steps os2 = run_steps M steps os1.
+Proof. exact run_steps_det. Qed.
+Print Assumptions C15_deterministic_outside_known.
+
+(* one accepted step, outside K1 *)
+Theorem C15_deterministic_step : forall o1 o2 sys M v, k1_step M (mkS sys v) = false ->
+  snd (upd o1 sys M v) = None -> upd o2 sys M v = upd o1 sys M v.
+Proof. exact upd_det. Qed.
+Print Assumptions C15_deterministic_step.
+
+(* (4) a refused version changes nothing: REFUTED (K2). A version valid for E1 and invalid for E2
+   is refused (MissingField) and E1 has gained its new field when the hash map visits E1 first. *)
+Theorem C15_refused_refuted :
+  let M := fst (upd zero_oracle false empty_model w_w1) in
+  snd (upd zero_oracle false empty_model w_w1) = None /\
+  snd (upd (oracle_of w_e1_first) false M w_w2) = Some EMissingField /\ fst (upd (oracle_of w_e1_first) false M w_w2) <> M /\
+  snd (upd (oracle_of w_e2_first) false M w_w2) = Some EMissingField /\ fst (upd (oracle_of w_e2_first) false M w_w2) = M.
+Proof. exact k2_witness. Qed.
+Print Assumptions C15_refused_refuted.
+
+(* ... and holds outside the known class: a version refused for its text (syntax, duplicates,
+   unknown entity, index) or for the namespace rule leaves the model untouched, under every order *)
+Theorem C15_refused_outside_known : forall o sys M v e,
+  snd (upd o sys M v) = Some e -> in_loop_err (Some e) = false -> fst (upd o sys M v) = M.
+Proof. exact refused_outside_loops_changes_nothing. Qed.
+Print Assumptions C15_refused_outside_known.
+
+Theorem C15_refused_histories_outside_known : forall steps os M,
+  snd (known_steps M steps os) = false -> refused_unchanged M (run_steps M steps os).
+Proof. exact run_steps_refused_unchanged. Qed.
+Print Assumptions C15_refused_histories_outside_known.
+
+(* even a half-applied refused version keeps the model free of collisions (a step of C15_stable_holds) *)
+Theorem C15_halfway_keeps_ids : forall o sys M v, wf_model (m_nss M) ->
+  keeps_ids M (fst (upd o sys M v)) /\ wf_model (m_nss (fst (upd o sys M v))).
+Proof. exact upd_keeps_ids. Qed.
+Print Assumptions C15_halfway_keeps_ids.
+
+(* (5) the same model again (what every restart does) changes nothing: REFUTED by the third step of
+   C15_deterministic_refuted (K1); outside K1 it holds under every iteration order: a version that
+   was accepted and gave no existing entity more than one new field is accepted again, and the
+   model — identifiers, flags, indexes, text — stays exactly as it is *)
+Theorem C15_restart_outside_known : forall o o' sys M v, wf_model (m_nss M) -> k1_step M (mkS sys v) = false ->
+  snd (upd o sys M v) = None -> upd o' sys (fst (upd o sys M v)) v = (fst (upd o sys M v), None).
+Proof. exact upd_again. Qed.
+Print Assumptions C15_restart_outside_known.
+
+(* (its hypothesis wf_model holds for every model a history reaches) *)
+Theorem C15_reachable_models_wf : forall steps os,
+  Forall (fun r => wf_model (m_nss (snd r))) (run_steps empty_model steps os).
+Proof. intros. apply run_steps_wf. exact wf_model_nil. Qed.
+Print Assumptions C15_reachable_models_wf.
+
+(* (6) the functions the harness evaluates flag the three witnesses and put them in their classes
+   (K3: update_data_model at run time answers Ok for a refused version) *)
+Theorem C15_spec_flags_witnesses :
+  spec_C15 w_case_k1 (run_C15 w_case_k1) = false /\ known_C15 w_case_k1 = [1; 2]%Z /\
+  spec_C15 w_case_k2 (run_C15 w_case_k2) = false /\ known_C15 w_case_k2 = [2]%Z /\
+  spec_C15 w_case_k3 (run_C15 w_case_k3) = false /\ known_C15 w_case_k3 = [2; 3]%Z.
+Proof. exact spec_witnesses. Qed.
+Print Assumptions C15_spec_flags_witnesses.
+
+(* the hypotheses of the outside-known theorems are satisfiable: a five-step history (one field
+   per entity per version, a refused text in between, the last version applied twice) lies in no
+   class, both peers accept [v1; v3; -; v4; v4] and the oracle of spec_C15 holds on it *)
+Example C15_outside_known_nonvacuous :
+  known_C15 w_case_clean = [] /\ spec_C15 w_case_clean (run_C15 w_case_clean) = true /\
+  known_steps empty_model [mkS false w_v1; mkS false w_v3; mkS false w_bad; mkS false w_v4; mkS false w_v4] [] = (false, false) /\
+  map fst (run_steps empty_model [mkS false w_v1; mkS false w_v3; mkS false w_bad; mkS false w_v4; mkS false w_v4] []) = [None; None; Some EDupField; None; None].
+Proof. exact clean_witness. Qed.
+Print Assumptions C15_outside_known_nonvacuous.
